@@ -484,9 +484,16 @@ func (e *Encoder) Binary(b []byte, static bool) {
 				forms = append(forms, 0)
 			}
 			forms = append(forms, 1)
-			if forms[e.choose(len(forms), "binary-final-form")] == 0 {
+			if l <= 1023 {
+				// the two-octet length form of the final grammar (what Java writes for 16..1023 octets)
+				forms = append(forms, 2)
+			}
+			switch forms[e.choose(len(forms), "binary-final-form")] {
+			case 0:
 				e.W.WriteByte(byte(0x20 + l))
-			} else {
+			case 2:
+				e.W.Write([]byte{byte(0x34 + l>>8), byte(l)})
+			default:
 				e.W.Write([]byte{'B', byte(l >> 8), byte(l)})
 			}
 		}
